@@ -147,4 +147,297 @@ theorem open_next (env : Env) (s : State E) (hp : s.pending = true) (hg : s.gone
   · obtain ⟨now', w, hx⟩ := open_handle_pending env s hh hc
     exact ⟨now', w, by rw [h, hx]⟩
 
+
+/-- the cause string of the no-op -/
+theorem noop_reason_str (env : Env) (s : State E) (h : (causeOf s).reason = .noop) :
+    ((cfgOf env s).reason == "noop") = true := by
+  show (C14.reasonStr (causeOf s).reason == "noop") = true
+  rw [h]; decide
+
+/-- When a turn of the loop ends with no event pending on an object that is not being deleted and that
+    the framework is not blind to: the last-handled state is the essence, nothing initial is
+    outstanding, no owned progress record is left, and the finalizer needs no adjustment. -/
+theorem quiescent_after_step (env : Env) (s : State E) (hp : s.pending = true) (hg : s.gone = false)
+    (hpm : env.prematch = true) (hmk : s.marked = false)
+    (hq : (loopStep env s).pending = false) :
+    (loopStep env s).base = some s.ess ∧
+    ((loopStep env s).noticed && !(loopStep env s).fullyHandled) = false ∧
+    (∀ i ∈ env.owned, (loopStep env s).P i = none) ∧
+    (loopStep env s).gone = false ∧ (loopStep env s).marked = false ∧
+    adjusting env (loopStep env s) = false := by
+  rcases turn_cases env s hp hg with ⟨_, _, _, _, h⟩ | ⟨_, _, h⟩ | ⟨_, h1, _⟩ | ⟨_, _, h1, _⟩ | ⟨ha, _, _, _, h⟩
+  · rw [h] at hq; cases hq
+  · rw [h, hmk] at hq; cases hq
+  · rw [hpm] at h1; cases h1
+  · rw [hmk] at h1; cases h1
+  · have hadjN : ∀ now' pend w, adjusting env (nextState env s now' pend w) = false := by
+      intro now' pend w
+      rw [adjusting_eq]
+      show ((env.prematch && env.changeReq && !s.blocked && !s.marked) ||
+            (!(env.prematch && env.changeReq) && s.blocked)) = false
+      rw [← adjusting_eq]; exact ha
+    rcases handleTurn_cases env s with ⟨_, h'⟩ | ⟨d, _, _, h'⟩ | ⟨hch, hm, h'⟩
+    · rw [h, h'] at hq; cases hq
+    · rw [h, h'] at hq; cases hq
+    · rw [h, h']
+      by_cases hc : (pass env s).closed = true
+      · have hh : isHandler s = true := by
+          cases hh : isHandler s
+          · have := (cycle_not_handler_reason_invoked (cfgOf env s) s.P s.now s.now env.exec hh).2
+            unfold pass at hc
+            rw [this] at hc; cases hc
+          · rfl
+        have hnone : ∀ i ∈ env.owned, (pass env s).P' i = none := by
+          cases he : (cfgOf env s).selected.isEmpty
+          · exact closed_purges (cfgOf env s) s.P s.now s.now env.exec hh he hc
+          · exact (closed_purges_skip (cfgOf env s) s.P s.now s.now env.exec hh he).2
+        exact ⟨by simp [nextState, hc], by simp [nextState, hc], hnone, hg, hmk, hadjN _ _ _⟩
+      · have hc' : (pass env s).closed = false := by simpa using hc
+        by_cases hh : isHandler s = true
+        · obtain ⟨now', w, hx⟩ := open_handle_pending env s hh hc'
+          rw [h, hx] at hq; cases hq
+        · have hh' : isHandler s = false := by simpa using hh
+          obtain ⟨hr, h1, h2⟩ := not_handler_noop s hmk hh'
+          have hr' : handlerReasons.contains (cfgOf env s).reason = false := hh'
+          have hnone : ∀ i ∈ env.owned, (pass env s).P' i = none := by
+            intro i hi
+            unfold pass
+            rw [cycle_not_handler_reason _ _ _ _ _ hr']
+            simp [noop_reason_str env s hr, purge, show i ∈ (cfgOf env s).owned from hi]
+          exact ⟨by simp [nextState, hc', h1], by simp [nextState, hc', h2], hnone, hg, hmk, hadjN _ _ _⟩
+
+/-- in a settled state — last-handled = essence, nothing initial outstanding, no owned record, not being
+    deleted, finalizer as needed — a (re-)delivered event is processed without any write and leaves
+    nothing pending -/
+theorem settled_event_no_write (env : Env) (t : State E) (hb : t.base = some t.ess)
+    (hi : (t.noticed && !t.fullyHandled) = false) (hn : ∀ i ∈ env.owned, t.P i = none)
+    (hg : t.gone = false) (hmk : t.marked = false) (ha : adjusting env t = false) :
+    (loopStep env { t with pending := true }).writes = t.writes ∧
+    (loopStep env { t with pending := true }).pending = false ∧
+    (loopStep env { t with pending := true }).base = t.base ∧
+    ∀ i, (loopStep env { t with pending := true }).P i = t.P i := by
+  have ha' : adjusting env ({ t with pending := true } : State E) = false := by
+    rw [adjusting_eq]
+    show ((env.prematch && env.changeReq && !t.blocked && !t.marked) ||
+          (!(env.prematch && env.changeReq) && t.blocked)) = false
+    rw [← adjusting_eq]; exact ha
+  rcases turn_cases env ({ t with pending := true } : State E) rfl hg with
+    ⟨h1, _⟩ | ⟨h1, _⟩ | ⟨_, _, h⟩ | ⟨_, _, h1, _⟩ | ⟨_, _, _, _, h⟩
+  · unfold adjusting at ha'; simp [h1] at ha'
+  · unfold adjusting at ha'; simp [h1] at ha'
+  · rw [h]; exact ⟨rfl, rfl, rfl, fun _ => rfl⟩
+  · have : t.marked = true := h1
+    rw [hmk] at this; cases this
+  · have hh : isHandler ({ t with pending := true } : State E) = false := by
+      unfold isHandler causeOf
+      simp [hb, hi, hmk, C05.detect, C05.detectReason, C14.reasonStr]
+      decide
+    have hr : handlerReasons.contains (cfgOf env ({ t with pending := true } : State E)).reason = false := hh
+    have hid : ∀ j, (pass env ({ t with pending := true } : State E)).P' j = t.P j :=
+      fun j => noop_pass_id hr hn j
+    have hcl : (pass env ({ t with pending := true } : State E)).closed = false :=
+      (cycle_not_handler_reason_invoked _ _ _ _ _ hr).2
+    have hdl : (pass env ({ t with pending := true } : State E)).delays = [] := by
+      unfold pass; rw [cycle_not_handler_reason _ _ _ _ _ hr]
+    have hnc : changedOf env ({ t with pending := true } : State E) = false := by
+      unfold changedOf
+      simp [hid, hcl]
+    rcases handleTurn_cases env ({ t with pending := true } : State E) with ⟨h', _⟩ | ⟨d, _, hm, _⟩ | ⟨_, _, h'⟩
+    · rw [hnc] at h'; cases h'
+    · rw [hdl] at hm; simp [minDelay] at hm
+    · rw [h, h']
+      exact ⟨rfl, rfl, by simp [nextState, hcl], hid⟩
+
+/-! ### the quiescent state of an object that is being deleted -/
+
+/-- a turn on a marked object either keeps it marked, blocked and pending — or ends with the own
+    finalizer removed (and the object gone unless somebody else's finalizer holds it) -/
+theorem marked_step (env : Env) (s : State E) (hp : s.pending = true) (hg : s.gone = false)
+    (hmk : s.marked = true) (hbl : s.blocked = true) :
+    ((loopStep env s).pending = true ∧ (loopStep env s).gone = false ∧ (loopStep env s).marked = true ∧
+      (loopStep env s).blocked = true) ∨
+    ((loopStep env s).blocked = false ∧ (loopStep env s).gone = !env.foreignFins) := by
+  rcases turn_cases env s hp hg with ⟨_, h1, _⟩ | ⟨_, _, h⟩ | ⟨ha, hpm, _⟩ | ⟨_, _, _, _, _, h⟩ | ⟨_, _, hrel, hcm, h⟩
+  · rw [hmk] at h1; cases h1
+  · right; rw [h]; simp [remState, hmk]
+  · -- blind and blocked: the finalizer is unneeded, so this turn would have removed it
+    exfalso
+    rw [adjusting_eq] at ha
+    simp [hpm, hbl] at ha
+  · right; rw [h]; simp [releaseTurn]
+  · left
+    have hh : isHandler s = true := by
+      unfold isHandler causeOf C05.detect C05.detectReason
+      simp [hmk, hbl, C14.reasonStr]
+      decide
+    have hc : (pass env s).closed = false := by
+      cases hc : (pass env s).closed
+      · rfl
+      · have := hcm hc; rw [hmk] at this; cases this
+    obtain ⟨now', w, hx⟩ := open_handle_pending env s hh hc
+    rw [h, hx]
+    exact ⟨rfl, hg, hmk, hbl⟩
+
+/-! ### once closed, closed: informational causes stay -/
+
+theorem isHandler_nextState (env : Env) (s : State E) (hcl : (pass env s).closed = false)
+    (a : Tick) (b : Bool) (c : Nat) : isHandler (nextState env s a b c) = isHandler s := by
+  have hc : causeOf (nextState env s a b c) = causeOf s :=
+    causeOf_congr s _ (by simp [nextState, hcl]) rfl rfl (by simp [nextState, hcl]) rfl rfl
+  unfold isHandler; rw [hc]
+
+theorem info_stays (env : Env) (s : State E) (hh : isHandler s = false) : isHandler (loopStep env s) = false := by
+  have hr : handlerReasons.contains (cfgOf env s).reason = false := hh
+  have hcl : (pass env s).closed = false := (cycle_not_handler_reason_invoked _ _ _ _ _ hr).2
+  by_cases hp : s.pending = true
+  rotate_left
+  · rw [loopStep_quiescent env s (by simpa using hp)]; exact hh
+  by_cases hg : s.gone = true
+  · have : loopStep env s = { s with pending := false } := by unfold loopStep; simp [hp, hg]
+    rw [this]; exact hh
+  have hg' : s.gone = false := by simpa using hg
+  rcases turn_cases env s hp hg' with ⟨_, hm, _, _, h⟩ | ⟨_, _, h⟩ | ⟨_, _, h⟩ | ⟨_, _, hm, _, _, h⟩ | ⟨_, _, _, _, h⟩
+  · have := causeOf_unmarked s (addState env s) rfl rfl rfl rfl hm hm
+    rw [h]; unfold isHandler; rw [this]; exact hh
+  · rw [h]
+    cases hm : s.marked
+    · have := causeOf_unmarked s (remState env s (false && !env.foreignFins)) rfl rfl rfl rfl hm hm
+      unfold isHandler; rw [this]; exact hh
+    · unfold isHandler causeOf C05.detect C05.detectReason
+      simp [remState, hm, C14.reasonStr]
+      decide
+  · rw [h]; exact hh
+  · rw [h]
+    unfold isHandler causeOf C05.detect C05.detectReason
+    simp [releaseTurn, nextState, hm, C14.reasonStr]
+    decide
+  · rw [h]
+    rcases handleTurn_cases env s with ⟨_, h'⟩ | ⟨d, _, _, h'⟩ | ⟨_, _, h'⟩ <;>
+      rw [h', isHandler_nextState env s hcl] <;> exact hh
+
+theorem gone_stays (env : Env) (s : State E) (hg : s.gone = true) : (loopStep env s).gone = true := by
+  unfold loopStep
+  by_cases hp : s.pending = true <;> simp [hp, hg]
+
+theorem closings_zero (env : Env) (n : Nat) :
+    ∀ s : State E, (s.gone = true ∨ isHandler s = false) → closings env n s = 0 := by
+  induction n with
+  | zero => intro s _; rfl
+  | succ n ih =>
+    intro s h
+    simp only [closings]
+    have h0 : (if (s.pending && !s.gone && (decisionOf env s).handlersRun && (pass env s).closed) = true
+        then 1 else 0) = 0 := by
+      rcases h with hg | hh
+      · simp [hg]
+      · have hr : handlerReasons.contains (cfgOf env s).reason = false := hh
+        have hc : (pass env s).closed = false :=
+          (cycle_not_handler_reason_invoked (cfgOf env s) s.P s.now s.now env.exec hr).2
+        simp [hc]
+    rw [h0, Nat.zero_add]
+    apply ih
+    rcases h with hg | hh
+    · exact Or.inl (gone_stays env s hg)
+    · exact Or.inr (info_stays env s hh)
+
+/-- after a closing turn the object is gone or its cause is informational -/
+theorem after_closing (env : Env) (s : State E) (hp : s.pending = true) (hg : s.gone = false)
+    (hrun : (decisionOf env s).handlersRun = true) (hc : (pass env s).closed = true) :
+    (loopStep env s).gone = true ∨ isHandler (loopStep env s) = false := by
+  rcases turn_cases env s hp hg with ⟨h1, _⟩ | ⟨h1, _⟩ | ⟨_, h1, _⟩ | ⟨_, _, hmk, _, _, h⟩ | ⟨_, _, _, hcm, h⟩
+  · rw [dec_run, h1] at hrun; simp at hrun
+  · rw [dec_run, h1] at hrun; simp at hrun
+  · rw [dec_run, h1] at hrun; simp at hrun
+  · right
+    rw [h]
+    unfold isHandler causeOf C05.detect C05.detectReason
+    simp [releaseTurn, nextState, hmk, C14.reasonStr]
+    decide
+  · right
+    have hmk := hcm hc
+    rw [h]
+    rcases handleTurn_cases env s with ⟨_, h'⟩ | ⟨d, _, _, h'⟩ | ⟨_, _, h'⟩ <;> rw [h'] <;>
+      exact closed_next_not_handler _ hmk (by simp [nextState, hc]) (by simp [nextState, hc])
+
+/-! ### the invocations of the following turns, and C02's pass sequence -/
+
+def toSteps : List (Tick × Tick × (Id → Nat → Outcome)) → List C02.Step
+  | [] => []
+  | (a, b, x) :: rest => ⟨a, b, x⟩ :: toSteps rest
+
+theorem invs_eq (env : Env) (hpm : env.prematch = true) (n : Nat) :
+    ∀ (s : State E), s.pending = true → s.gone = false → adjusting env s = false → isHandler s = true →
+      invsOf env n s = invokedSeq (cfgOf env s) s.P (toSteps (stepsOf env n s)) := by
+  induction n with
+  | zero => intro s _ _ _ _; rfl
+  | succ n ih =>
+    intro s hp hg ha hh
+    simp only [invsOf, stepsOf, toSteps, invokedSeq]
+    show (pass env s).invoked :: _ = (pass env s).invoked :: _
+    congr 1
+    cases hc : (pass env s).closed
+    · have hc2 : (cycle (cfgOf env s) s.P s.now s.now env.exec).closed = false := hc
+      simp only [hc2, Bool.false_eq_true, if_false]
+      obtain ⟨now', w, h⟩ := open_next env s hp hg ha hpm hh hc
+      have hcz : causeOf (nextState env s now' true w) = causeOf s :=
+        causeOf_congr s _ (by simp [nextState, hc]) rfl rfl (by simp [nextState, hc]) rfl rfl
+      have hcfg : cfgOf env (loopStep env s) = cfgOf env s := by rw [h]; unfold cfgOf; rw [hcz]
+      have hh' : isHandler (loopStep env s) = true := by rw [h]; unfold isHandler; rw [hcz]; exact hh
+      have hp' : (loopStep env s).pending = true := by rw [h]; rfl
+      have hg' : (loopStep env s).gone = false := by rw [h]; exact hg
+      have ha' : adjusting env (loopStep env s) = false := by
+        rw [h, adjusting_eq]
+        show ((env.prematch && env.changeReq && !s.blocked && !s.marked) ||
+              (!(env.prematch && env.changeReq) && s.blocked)) = false
+        rw [← adjusting_eq]; exact ha
+      have hP : (loopStep env s).P = (cycle (cfgOf env s) s.P s.now s.now env.exec).P' := by rw [h]; rfl
+      rw [ih (loopStep env s) hp' hg' ha' hh', hcfg, hP]
+    · have hc2 : (cycle (cfgOf env s) s.P s.now s.now env.exec).closed = true := hc
+      simp [hc2]
+
+omit [DecidableEq E] in
+theorem applyEdits_fields (es : List E) : ∀ (s : State E),
+    (applyEdits s es).base = s.base ∧ (applyEdits s es).P = s.P ∧
+    (applyEdits s es).marked = s.marked ∧ (applyEdits s es).blocked = s.blocked ∧
+    (applyEdits s es).gone = s.gone ∧
+    (applyEdits s es).ess = (es.getLast?).getD s.ess := by
+  induction es with
+  | nil => intro s; exact ⟨rfl, rfl, rfl, rfl, rfl, rfl⟩
+  | cons e rest ih =>
+    intro s
+    have := ih { s with ess := e }
+    simp only [applyEdits, List.foldl_cons] at this ⊢
+    refine ⟨this.1, this.2.1, this.2.2.1, this.2.2.2.1, this.2.2.2.2.1, ?_⟩
+    rw [this.2.2.2.2.2]
+    cases rest with
+    | nil => rfl
+    | cons a as =>
+      cases h : (a :: as).getLast? with
+      | none => simp at h
+      | some v => simp [List.getLast?_cons_cons, h]
+
+/-! ### histories -/
+
+theorem act_uniform (env : Env) (wf : WF env) (s : State E) (a : Act E) (hu : UniformOn env.owned s.P) :
+    UniformOn env.owned (act env s a).P := by
+  cases a with
+  | turn x => exact loopStep_uniform { env with exec := x } (wf_exec env wf x) s hu
+  | edit e t => simp only [act]; split <;> exact hu
+  | delete t =>
+    simp only [act]
+    split
+    · exact hu
+    · split <;> exact hu
+  | restart t => exact hu
+  | lostWrite x t => exact hu
+
+theorem runActs_uniform (env : Env) (wf : WF env) (acts : List (Act E)) :
+    ∀ s : State E, UniformOn env.owned s.P → UniformOn env.owned (runActs env s acts).P := by
+  induction acts with
+  | nil => intro s h; exact h
+  | cons a rest ih =>
+    intro s h
+    simp only [runActs, List.foldl_cons]
+    exact ih _ (act_uniform env wf s a h)
+
 end Kopf.C03
